@@ -290,7 +290,7 @@ TDcClose ==
 
 TApiBegin ==
     /\ Is("api_begin")
-    /\ calls' = (IF Ev.site = "wfc" THEN calls \cup {"wfc"} ELSE calls) /\ UNCHANGED sendpc
+    /\ calls' = (IF Ev.site \in {"wfc", "send"} THEN calls \cup {Ev.site} ELSE calls) /\ UNCHANGED sendpc
     /\ UNCHANGED <<peer, sig, reason, ap, iceT, sock, seenL, seenC, role, lp, cp, cval, cnext, dtls, dtask, dpermit,
                    seenD, sctp, stask, srun, spermit, swhy, loops, chan, opened, closes, grace, cl, handles, dropped,
                    peerAlive, alertIn, abortIn, shutdownIn, wfcLeft, fired>>
